@@ -199,6 +199,15 @@ Example C05_ex_odd_sites_good :
   site_good S_pcsd (ex_env 15 15 TwoSided) = true /\ site_good A_MTCoh (ex_env 15 15 OneSided) = true /\
   length (site_true S_mt_psd (ex_env 15 9 OneSided)) = 8%nat.
 Proof. repeat split. Qed.
+(* the unshifted two-sided estimators behind an analyzer (complex data or sides='twosided'):
+   bins k = 0..NFFT-1 on [0, Fs), also with NFFT > N and odd sizes *)
+Example C05_ex_twosided_analyzer_sites :
+  site_good A_Coh_pcsd (ex_env 15 21 TwoSided) = true /\ site_good A_Coh_mt (ex_env 15 9 TwoSided) = true /\
+  site_good A_Spec_periodogram (ex_env 15 15 TwoSided) = true /\
+  length (site_true A_Coh_pcsd (ex_env 15 21 TwoSided)) = 21%nat /\
+  length (site_true A_Coh_mt (ex_env 15 9 TwoSided)) = 15%nat /\
+  nth_error (site_true A_Coh_pcsd (ex_env 15 21 TwoSided)) 20 = Some (bin_freq (5 # 2) 21 20).
+Proof. repeat split. Qed.
 Example C05_ex_band_nonempty : true_band_bins (5 # 2) 16 (3 # 10) (Some (9 # 10)) = [2; 3; 4; 5]%nat.
 Proof. vm_compute. reflexivity. Qed.
 Example C05_ex_sorted : StronglySorted Qle (get_freqs 3 8) /\ nth_error (get_freqs 3 8) 2 = Some (0 + qn 2 * ((3 / 2 - 0) / qn 4)).
